@@ -41,7 +41,8 @@ class Gen:
 
     def files(self, d):
         p = self.a.ddir(d)
-        return sorted(f for f in os.listdir(p) if os.path.isfile(os.path.join(p, f)) and not f.endswith(".unrecoverable"))
+        return sorted(f for f in os.listdir(p) if os.path.isfile(os.path.join(p, f)) and not os.path.islink(os.path.join(p, f))
+                      and not f.endswith(".unrecoverable"))
 
     def recorded(self):
         st = self.rec.lines[-1]["state"]
@@ -100,6 +101,133 @@ class Gen:
         os.utime(dst, ns=(st.st_mtime_ns, st.st_mtime_ns))
         return "copy%s %d/%s -> %d/%s" % (" (decoy)" if decoy else "", d, n, e, n)
 
+    # ---- C11: the full alphabet of file-system changes
+    def _top_files(self, d):
+        return [f for f in self.files(d) if f != "zz"]
+
+    def op_append(self):
+        d = self.rng.randrange(self.conf.nd)
+        fl = self._top_files(d)
+        if not fl:
+            return None
+        n = self.rng.choice(fl)
+        p = self.a.path(d, n)
+        if os.path.getsize(p) % arr.BS:
+            return None            # only whole blocks can be extended without rewriting the tail
+        vals = self.content(self.rng.randint(1, 2))
+        with open(p, "ab") as f:
+            f.write(self.a.file_bytes(vals))
+        self.a.set_mtime(d, n, self.stamp())
+        return "append %d/%s %r" % (d, n, vals)
+
+    def op_truncate(self):
+        d = self.rng.randrange(self.conf.nd)
+        fl = [f for f in self._top_files(d) if os.path.getsize(self.a.path(d, f)) > arr.BS]
+        if not fl:
+            return None
+        n = self.rng.choice(fl)
+        p = self.a.path(d, n)
+        keep = self.rng.randrange(1, (os.path.getsize(p) + arr.BS - 1) // arr.BS)
+        os.truncate(p, keep * arr.BS)
+        self.a.set_mtime(d, n, self.stamp())
+        return "truncate %d/%s to %d blocks" % (d, n, keep)
+
+    def op_samesize(self):
+        """rewrite with other content, same size, new time stamp"""
+        d = self.rng.randrange(self.conf.nd)
+        fl = self._top_files(d)
+        if not fl:
+            return None
+        n = self.rng.choice(fl)
+        sz = os.path.getsize(self.a.path(d, n))
+        if sz == 0 or sz % arr.BS:
+            return None
+        vals = [self.val() for _ in range(sz // arr.BS)]
+        self.a.write_file(d, n, vals, mtime=self.stamp())
+        return "rewrite %d/%s same size %r" % (d, n, vals)
+
+    def op_rename(self):
+        d = self.rng.randrange(self.conf.nd)
+        fl = self._top_files(d)
+        if not fl:
+            return None
+        n = self.rng.choice(fl)
+        m = self.rng.choice([x for x in self.names + ["sub/" + y for y in self.names] if x != n])
+        src, dst = self.a.path(d, n), self.a.path(d, m)
+        if os.path.lexists(dst) and (os.path.isdir(dst) or self.rng.random() < 0.5):
+            return None
+        os.makedirs(os.path.dirname(dst), exist_ok=True)
+        os.replace(src, dst)                 # may overwrite another file: the names are swapped/overtaken
+        return "rename %d/%s -> %s" % (d, n, m)
+
+    def op_symlink(self):
+        d = self.rng.randrange(self.conf.nd)
+        n = self.rng.choice(["L1", "L2", "sub/L1"])
+        p = self.a.path(d, n)
+        os.makedirs(os.path.dirname(p), exist_ok=True)
+        if os.path.lexists(p):
+            if os.path.isdir(p) and not os.path.islink(p):
+                return None
+            os.remove(p)
+            if self.rng.random() < 0.4:
+                return "remove link %d/%s" % (d, n)
+        to = self.rng.choice(["A", "../zz", "missing target", "sub"])
+        os.symlink(to, p)
+        return "symlink %d/%s -> %s" % (d, n, to)
+
+    def op_hardlink(self):
+        d = self.rng.randrange(self.conf.nd)
+        fl = [f for f in self._top_files(d) if f not in ("H1", "H2")]
+        if not fl:
+            return None
+        n = self.rng.choice(fl)
+        m = self.rng.choice(["H1", "H2"])
+        p = self.a.path(d, m)
+        if os.path.lexists(p):
+            os.remove(p)
+            if self.rng.random() < 0.4:
+                return "remove hard link %d/%s" % (d, m)
+        os.link(self.a.path(d, n), p)
+        return "hard link %d/%s = %s" % (d, m, n)
+
+    def op_dir(self):
+        d = self.rng.randrange(self.conf.nd)
+        n = self.rng.choice(["E1", "sub/E2", "E3"])
+        p = self.a.path(d, n)
+        if os.path.isdir(p) and not os.path.islink(p):
+            if not os.listdir(p):
+                os.rmdir(p)
+                return "rmdir %d/%s" % (d, n)
+            return None
+        if os.path.lexists(p):
+            return None
+        os.makedirs(p)
+        return "mkdir %d/%s" % (d, n)
+
+    def op_replace_kind(self):
+        """replace a file by a directory or a link of the same name, or back"""
+        d = self.rng.randrange(self.conf.nd)
+        n = self.rng.choice(self.names)
+        p = self.a.path(d, n)
+        if os.path.islink(p):
+            os.remove(p)
+            self.a.write_file(d, n, self.content(), mtime=self.stamp())
+            return "link %d/%s replaced by a file" % (d, n)
+        if os.path.isdir(p):
+            if os.listdir(p):
+                return None
+            os.rmdir(p)
+            self.a.write_file(d, n, self.content(), mtime=self.stamp())
+            return "directory %d/%s replaced by a file" % (d, n)
+        if os.path.isfile(p):
+            os.remove(p)
+            if self.rng.random() < 0.5:
+                os.makedirs(p)
+                return "file %d/%s replaced by an empty directory" % (d, n)
+            os.symlink("zz", p)
+            return "file %d/%s replaced by a symlink" % (d, n)
+        return None
+
     def op_move(self):
         """move a file to another disk or into a sub-directory keeping name and time stamp"""
         d = self.rng.randrange(self.conf.nd)
@@ -141,8 +269,9 @@ class Gen:
         out = []
         for dp, dn, fn in os.walk(base):
             for f in fn:
-                rel = os.path.relpath(os.path.join(dp, f), base)
-                if not rel.endswith(".unrecoverable"):
+                p = os.path.join(dp, f)
+                rel = os.path.relpath(p, base)
+                if not rel.endswith(".unrecoverable") and os.path.isfile(p) and not os.path.islink(p):
                     out.append(rel)
         return sorted(out)
 
@@ -295,15 +424,22 @@ class Gen:
             return "scrub %s%s -> %s" % (plan, " short reads" if rules else "", self.rec.scrub(plan, rules=rules)[1]["exit"])
         if name == "diff":
             return "diff -> %s" % self.rec.diff()[1]["exit"]
+        if name == "list":
+            return "list -> rc %s" % self.rec.list()[1]["rc"]
+        if name == "touchcmd":
+            return "touch command -> %s" % self.rec.touch()[1]["exit"]
 
     WEIGHTS = {
-        "mixed": [("add", 20), ("touch", 4), ("delete", 8), ("corrupt", 6), ("corrupt_parity", 4), ("lose_disk", 2),
+        "mixed": [("add", 20), ("touchcmd", 3), ("touch", 4), ("delete", 8), ("corrupt", 6), ("corrupt_parity", 4), ("lose_disk", 2),
                   ("lose_parity", 2), ("sync", 22), ("check", 8), ("fix", 10), ("scrub", 8), ("diff", 4)],
-        "syncheavy": [("add", 30), ("touch", 6), ("delete", 14), ("sync", 40), ("diff", 5), ("check", 5)],
+        "syncheavy": [("add", 30), ("touchcmd", 3), ("touch", 6), ("delete", 14), ("sync", 40), ("diff", 5), ("check", 5)],
         "ranges": [("add", 18), ("touch", 3), ("delete", 8), ("corrupt", 5), ("corrupt_parity", 3), ("lose_disk", 2),
                    ("lose_parity", 1), ("sync", 26), ("check", 8), ("fix", 14), ("scrub", 4), ("diff", 2)],
         "copy": [("add", 14), ("copy", 16), ("touch", 3), ("delete", 8), ("corrupt", 3), ("lose_disk", 2),
                  ("sync", 28), ("check", 6), ("fix", 8), ("diff", 4)],
+        "c11": [("add", 10), ("samesize", 5), ("append", 5), ("truncate", 4), ("delete", 6), ("rename", 8), ("move", 6), ("copy", 4),
+                ("replace_kind", 6), ("symlink", 6), ("hardlink", 5), ("dir", 5), ("touch", 4), ("nsec", 2), ("touchcmd", 2),
+                ("sync", 16), ("diff", 10), ("list", 6), ("check", 4)],
         "c19": [("add", 12), ("copy", 16), ("move", 10), ("nsec", 6), ("touch", 2), ("delete", 6), ("corrupt", 3), ("lose_disk", 3),
                 ("sync", 26), ("check", 5), ("fix", 12), ("diff", 2)],
         "detect": [("add", 8), ("delete", 3), ("corrupt", 14), ("corrupt_burst", 10), ("corrupt_parity", 14), ("sync", 14),
@@ -492,7 +628,7 @@ class Gen:
                 break
         if name == "sync":
             desc = self.cmd_sync()
-        elif name in ("check", "fix", "scrub", "diff"):
+        elif name in ("check", "fix", "scrub", "diff", "touchcmd", "list"):
             desc = self.cmd(name)
         else:
             desc = getattr(self, "op_" + name)()
